@@ -1,3 +1,92 @@
-import HtpModel.Lemmas.Conn
+/- C02 — parse fidelity: what was sent is what is reported (well-formed messages).
+
+   Proved here for every input (no bound on lengths): the request header-line parser reports exactly the name and value that a
+   well-formed field line carries (`C02_header_roundtrip`), for every token name and every value that does not start or end with
+   linear white space, whatever bytes the value contains. The remaining clauses of the property (request line, response line,
+   folding and repetition, host/port, cookies, credentials, parameters, bodies, pipelining) are decided by the correspondence of
+   the connection model with the implementation and the wire ground-truth oracle of checks/c02.py; the known finding S33
+   (a folded response value containing ':') is a counter-example to the full statement on the unchanged code. -/
+import HtpModel.Lemmas.Parse
+
 namespace Htp.C02
+open Htp Htp.Gen Htp.Parse
+
+/-- **C02 (request header line).** A header line `name ": " value` whose name is a non-empty token and whose value neither starts
+    nor ends with linear white space is reported with exactly that name and that value and no anomaly flag - whatever else the
+    value contains (colons, NUL bytes, high bytes) and whatever the line terminator was. -/
+theorem C02_header_roundtrip (data0 name value : Bytes) (r : Nat)
+    (hch : chomp data0 = (name ++ 0x3a :: 0x20 :: value, r))
+    (hne : name ≠ []) (htok : name.all isToken = true)
+    (hv1 : ∀ c, value.head? = some c → isLws c = false) (hv2 : ∀ c, value.getLast? = some c → isLws c = false) :
+    parseRequestHeader data0 = ({ name := name, value := value, flags := 0 }, 0) := by
+  have htk : ∀ c ∈ name, isToken c = true := by simpa [List.all_eq_true] using htok
+  have hcolon : ((name ++ 0x3a :: 0x20 :: value).takeWhile (fun c => c != 0 && c != 0x3a)) = name :=
+    takeWhile_append_stop _ name 0x3a _ (fun y hy => (token_facts y (htk y hy)).1) (by decide)
+  unfold parseRequestHeader
+  simp only [hch, hcolon]
+  have hnl : 0 < name.length := by cases name with | nil => exact absurd rfl hne | cons a t => simp
+  have hlen : (name ++ 0x3a :: 0x20 :: value).length = name.length + 2 + value.length := by simp; omega
+  have hget : (name ++ 0x3a :: 0x20 :: value).getD name.length 0 = 0x3a := by
+    simp [List.getD, List.getElem?_append_right]
+  have htrail : trailCount isLws (name ++ 0x3a :: 0x20 :: value) 0 name.length = 0 := by
+    unfold trailCount
+    simp only [List.take_left', List.drop_zero]
+    rw [takeWhile_head_false]
+    · rfl
+    · intro y hy
+      have : y ∈ name := by
+        have := List.mem_of_mem_head? hy
+        simpa using this
+      exact (token_facts y (htk y this)).2
+  have hlws32 : isLws 0x20 = true := by decide
+  have hscan : scanFwd (fun c => !isLws c) (name ++ 0x3a :: 0x20 :: value) (name.length + 1) = name.length + 2 := by
+    unfold scanFwd
+    have : (name ++ 0x3a :: 0x20 :: value).drop (name.length + 1) = 0x20 :: value := by
+      rw [List.drop_append]; simp [List.drop_of_length_le]
+    rw [this]
+    simp only [Bool.not_not, List.takeWhile, hlws32]
+    rw [takeWhile_head_false _ _ (by intro y hy; simpa using hv1 y hy)]
+    rfl
+  have hlt : name.length < name.length + 2 + value.length := by omega
+  simp only [hlen, hget, htrail, hlt, if_true, hscan]
+  have htake : (name ++ 0x3a :: 0x20 :: value).take (name.length - 0) = name := by simp
+  have hne0 : (name.length == 0) = false := by simp; omega
+  have hcond : (name.length == name.length + 2 + value.length || (0x3a : UInt8) == 0) = false := by
+    have h1 : (name.length == name.length + 2 + value.length) = false := by simp; omega
+    rw [h1]; decide
+  have htv : (List.takeWhile isLws (List.drop (name.length + 2 + 1)
+      (List.take (name.length + 2 + value.length) (name ++ 0x3a :: 0x20 :: value))).reverse) = [] := by
+    have e : List.take (name.length + 2 + value.length) (name ++ 0x3a :: 0x20 :: value) = name ++ 0x3a :: 0x20 :: value := by
+      rw [← hlen]; exact List.take_length
+    have e2 : List.drop (name.length + 2 + 1) (name ++ 0x3a :: 0x20 :: value) = value.drop 1 := by
+      rw [List.drop_append]
+      have h1 : List.drop (name.length + 2 + 1) name = [] := List.drop_of_length_le (by omega)
+      have h2 : name.length + 2 + 1 - name.length = 3 := by omega
+      rw [h1, h2]; rfl
+    rw [e, e2]
+    apply takeWhile_head_false
+    intro y hy
+    rw [List.head?_reverse] at hy
+    apply hv2
+    cases value with
+    | nil => simp at hy
+    | cons v vs =>
+      cases vs with
+      | nil => simp at hy
+      | cons w ws => simpa [List.getLast?_cons_cons] using hy
+  simp only [hcond, htake, htok, hne0, htv, Bool.false_eq_true, if_false, if_true, List.length_nil, Nat.lt_irrefl, gt_iff_lt]
+  have hval : List.drop (name.length + 2) (List.take (name.length + 2 + value.length - 0) (name ++ 0x3a :: 0x20 :: value)) = value := by
+    have e : List.take (name.length + 2 + value.length - 0) (name ++ 0x3a :: 0x20 :: value) = name ++ 0x3a :: 0x20 :: value := by
+      rw [Nat.sub_zero, ← hlen]; exact List.take_length
+    rw [e, List.drop_append]
+    have h1 : List.drop (name.length + 2) name = [] := List.drop_of_length_le (by omega)
+    have h2 : name.length + 2 - name.length = 2 := by omega
+    rw [h1, h2]; rfl
+  simp only [ite_self, hval]
+
+/-- non-vacuity: a real line meets the hypotheses (the CR LF terminator is what `chomp` removes) -/
+example : chomp (b!"Host: www.example.com\r\n") = ((b!"Host") ++ 0x3a :: 0x20 :: (b!"www.example.com"), 2) := by decide
+example : parseRequestHeader (b!"Host: www.example.com\r\n") = ({ name := (b!"Host"), value := (b!"www.example.com"), flags := 0 }, 0) :=
+  C02_header_roundtrip _ (b!"Host") (b!"www.example.com") 2 (by decide) (by decide) (by decide) (by decide) (by decide)
+
 end Htp.C02
